@@ -701,6 +701,8 @@ func preamble() []string {
 		"(assert (forall ((s Str)) (! (=> (= (strlen s) 0) (= s str!empty)) :pattern ((strlen s)))))",
 		"(declare-fun rnd64 (Real) Real)",
 		"(declare-fun rnd32 (Real) Real)",
+		"(declare-fun fk_add (Int Real Int Real) Int)", "(declare-fun fk_sub (Int Real Int Real) Int)", "(declare-fun fk_mul (Int Real Int Real) Int)",
+		"(declare-fun fk_div (Int Real Int Real) Int)", "(declare-fun fv_div (Int Real Int Real) Real)", "(declare-fun fk_32 (Int Real) Int)",
 		"(define-fun absr ((x Real)) Real (ite (>= x 0.0) x (- x)))",
 		"(define-fun EPS53 () Real (/ 1.0 9007199254740992.0))",
 		"(define-fun TINY () Real (/ 1.0 404804506614621236704990693437834614099113299528284236713802716054860679135990693783920767402874248990374155728633623822779617474771586953734026799881477019843034848553132722728933815484186432682479535356945490137124014966849385397236206711298319112681620113024717539104666829230461005064372655017292012526615415482186989568.0))",
